@@ -391,7 +391,40 @@ class Introns(Case):
         return [obs_loc(r[0])[:2], obs_loc(r[1])[:2]]
 
 
+class IntronsOverlap(Case):
+    """Introns of a (non-coding) transcript whose exons may overlap, nest or share a start (the constructors accept such
+    layouts): a position is intronic iff it lies inside the span and in NO exon; the span is min(start) .. max(end)."""
+    props = ("C06",)
+    func = "gene.interval.AbstractFeatureInterval.chromosome_gaps_location"
+
+    def __init__(self, n):
+        self.n = n
+        self.name = f"TranscriptInterval introns = span minus exons[{n} exons that may overlap or nest, non-coding]"
+        self.call = "(tx.chromosome_gaps_location, tx.chromosome_span)"
+        self.ensures = {
+            "introns": lambda i, r: Iff(covers_pos(r[0], i.p), And(i.starts[0] <= i.p, i.p < i.hi,
+                                                                   Not(in_blocks(i.starts, i.ends, i.p)))),
+            "span": lambda i, r: And(r[1].start == i.starts[0], r[1].end == i.hi),
+        }
+
+    def inputs(self, S):
+        starts, ends = block_lists(S, "tx", self.n, allow_overlap=True)
+        strand = strand_of(S, "strand")
+        tx = S.new(TRANSCRIPT, starts, ends, strand, sequence_name="chr1", transcript_id="tx1")
+        hi = ends[0]
+        for e in ends[1:]:
+            hi = Max(hi, e)
+        return NS(tx=tx, starts=starts, ends=ends, hi=hi, p=S.int("p"))
+
+    def samples(self, rng):
+        bl = sorted((lambda a: (a, a + rng.randint(1, 5)))(rng.randint(0, 9)) for _ in range(self.n))
+        return {"tx_starts": [b[0] for b in bl], "tx_ends": [b[1] for b in bl], "strand": rng.choice(["PLUS", "MINUS"]),
+                "p": rng.randint(0, 15)}
+
+    observe = Introns.observe
+
+
 CASES = [PosCommute(1), PosCommute(2), PosCommute(3), PosCommute(1, True), PosCommute(2, True), PosCommute(1, "cuts"), TxOutsideCds(2), UtrPartition(1), UtrPartition(2),
-         UtrPartition(3), Introns(2), Introns(3), IntervalConversions(1, "cuts"), IntervalConversions(2, "cuts"),
+         UtrPartition(3), Introns(2), Introns(3), IntronsOverlap(2), IntronsOverlap(3), IntervalConversions(1, "cuts"), IntervalConversions(2, "cuts"),
          IntervalConversions(2, False), UtrFrameshift(-1), UtrFrameshift(1), PosCommuteFrameshift(-1),
          PosCommuteFrameshift(1)]
